@@ -111,33 +111,98 @@ func ttlGrid(r receiver, ttls []int) {
 	s, err := r.c()
 	must(err, "NewSocket")
 	eff := 8
-	if ttl != 0 {
+	// the TTL is set before anybody is connected or (free choice) on the connected socket: either
+	// way it is the limit for every message that arrives afterwards, the very first one included
+	late := ttl != 0 && kit.ChooseFree(2) == 1
+	if ttl != 0 && !late {
 		must(s.SetOption(mangos.OptionTTL, ttl), "SetOption(TTL)")
 		eff = ttl
-	}
-	if v, err := s.GetOption(mangos.OptionTTL); err != nil || v.(int) != eff {
-		kit.Failf("ttl-get:"+r.name, "%s: GetOption(TTL) = %v, %s; want %d", r.name, v, kit.ErrName(err), eff)
 	}
 	ep := vt.Get("ttl")
 	must(s.Listen("vt://ttl"), "Listen")
 	p := ep.Connect()
 	kit.Quiesce()
+	if late {
+		must(s.SetOption(mangos.OptionTTL, ttl), "SetOption(TTL)")
+		eff = ttl
+		kit.Quiesce()
+		kit.Count("ttl-changed-while-connected")
+	}
+	if v, err := s.GetOption(mangos.OptionTTL); err != nil || v.(int) != eff {
+		kit.Failf("ttl-get:"+r.name, "%s: GetOption(TTL) = %v, %s; want %d", r.name, v, kit.ErrName(err), eff)
+	}
+	var lastHdr []byte
 	recv := func() *kit.Call {
 		c := kit.Start("Recv", func() (interface{}, error) {
 			m, err := s.RecvMsg()
 			if err != nil {
 				return nil, err
 			}
+			lastHdr = append([]byte{}, m.Header...)
 			return string(m.Body), nil
 		})
 		kit.Quiesce()
 		return c
 	}
+	raw := false
+	if v, err := s.GetOption(mangos.OptionRaw); err == nil {
+		raw, _ = v.(bool)
+	}
+	// answer: a request / survey that was delivered can be answered, and the answer travels back
+	// with exactly the routing words the request arrived with (request-reply kinds only)
+	answer := func(h int) {
+		if r.kind != "words" {
+			return
+		}
+		bt := crossed(r.kind, h, "")
+		body := fmt.Sprintf("answer-h%d", h)
+		before := p.NumSent()
+		c := kit.Start("Send", func() (interface{}, error) {
+			if !raw {
+				return nil, kit.SendBytes(s, []byte(body))
+			}
+			if len(lastHdr) != 4+len(bt) || lastHdr[0]&0x80 != 0 || string(lastHdr[4:]) != string(bt) || string(lastHdr[:4]) == "\x00\x00\x00\x00" {
+				kit.Failf("raw-header-after-hops:"+r.name, "%s: a request that crossed %d connection(s) was delivered with header %x, want a non-zero pipe id followed by the %d routing bytes %x", r.name, h, lastHdr, len(bt), bt)
+			}
+			m := mangos.NewMessage(len(body))
+			m.Header = append(m.Header, lastHdr...)
+			m.Body = append(m.Body, body...)
+			return nil, s.SendMsg(m)
+		})
+		kit.Quiesce()
+		if !c.Done() || c.Err != nil {
+			kit.Failf("answer-send:"+r.name, "%s: answering a request that crossed %d connection(s): done=%v %s", r.name, h, c.Done(), kit.ErrName(c.Err))
+		}
+		l := p.SentLog()
+		if len(l) != before+1 || string(l[len(l)-1].Data) != string(bt)+body {
+			kit.Failf("answer-lost-after-hops:"+r.name, "%s with TTL %d: a request that crossed %d connection(s) was delivered and answered, but the answer did not go back with its %d routing bytes (peer got %d message(s))", r.name, eff, h, len(bt), len(l)-before)
+		}
+		kit.Count("answered-at-hops")
+	}
 	maxh := eff + 2
 	if r.kind != "words" && maxh > 256 {
 		maxh = 256 // hop byte 255 is the last value that exists
 	}
+	var order []int
 	for h := 1; h <= maxh; h++ {
+		order = append(order, h)
+	}
+	if late {
+		// the first message after the change lies between the old limit (8) and the new one
+		first := 1
+		over := 0
+		if r.kind == "pair1" {
+			over = 1
+		}
+		switch {
+		case eff < 8:
+			first = eff + 1 + over
+		case eff > 8:
+			first = 9 + over
+		}
+		order = append([]int{first}, order...)
+	}
+	for _, h := range order {
 		want := h <= eff
 		if r.kind == "pair1" {
 			want = h-1 <= eff // PAIR1 counts forwarders
@@ -163,6 +228,7 @@ func ttlGrid(r receiver, ttls []int) {
 			if h == eff || (r.kind == "pair1" && h-1 == eff) {
 				kit.Count("delivered-at-limit")
 			}
+			answer(h)
 			c = recv()
 			if !c.Done() || c.Err != nil || c.Val.(string) != "sentinel" {
 				kit.Failf("ttl-sentinel:"+r.name, "%s ttl=%d h=%d: sentinel: done=%v %s %q", r.name, eff, h, c.Done(), kit.ErrName(c.Err), c.Val)
@@ -174,7 +240,7 @@ func ttlGrid(r receiver, ttls []int) {
 			kit.Count("dropped-over-limit")
 		}
 	}
-	kit.Observe("%s ttl=%d", r.name, eff)
+	kit.Observe("%s ttl=%d late=%v", r.name, eff, late)
 	kit.Must("Close", func() { _ = s.Close() })
 }
 
